@@ -930,7 +930,10 @@ func ruleCmd(c *Ctx) {
 			})
 			if stat == nil {
 				// the check extracted into a helper of the command: its error must fail the flag
-				for _, hc := range callsTo(uf, func(cc *ssa.CallCommon) bool { f := cc.StaticCallee(); return f != nil && inCmd[f] && len(f.Blocks) > 0 }) {
+				for _, hc := range callsTo(uf, func(cc *ssa.CallCommon) bool {
+					f := cc.StaticCallee()
+					return f != nil && inCmd[f] && len(f.Blocks) > 0
+				}) {
 					h := hc.Common().StaticCallee()
 					var st2 *ssa.Call
 					allInstrs(h, func(i ssa.Instruction) {
